@@ -172,8 +172,182 @@ def pPeaks : P (List (Nat × Bool × Int)) :=
 def precPsms (entries : List (Nat × Bool × Int)) : List (Psm Nat Nat Int) :=
   entries.map fun e => { key := e.1, decoy := e.2.1, ix := e.1, score := e.2.2 }
 
+
+/-! ### large tables (`bigpick`, `bigprec`)
+
+Both sides generate the table from the seed with the same integer formulas (splitmix64 finaliser), so the
+request is short and the driver knows every PSM: entity, decoy flag and score (an integer `m`; the f32 score
+is `(m - 131070) / 32768`, exact, so comparing scores is comparing `m`). The Lean MODEL is not run at this size
+(its competition map is an association list, quadratic); what is checked is the implementation against itself
+under three supply orders / pool sizes (`bad:order_dependent`) and the property's clauses on each of its
+answers, evaluated with arrays in O(n log n): `range`, `same_entity`, `antitone`, `count`. -/
+
+def mix64 (z : UInt64) : UInt64 :=
+  let z := (z ^^^ (z >>> 30)) * 0xBF58476D1CE4E5B9
+  let z := (z ^^^ (z >>> 27)) * 0x94D049BB133111EB
+  z ^^^ (z >>> 31)
+
+def hsh (seed i salt : UInt64) : UInt64 :=
+  mix64 (seed + (i + 1) * 0x9E3779B97F4A7C15 + salt * 0xD1B54A32D192ED03)
+
+def bell (x : UInt64) : Int :=
+  let k : UInt64 := 0xFFFF
+  (((x &&& k) + ((x >>> 16) &&& k) + ((x >>> 32) &&& k) + ((x >>> 48) &&& k)).toNat : Int)
+
+/-- a PSM of a large table: peptide-level entity, protein-level entity, decoy flag, integer score -/
+structure BigPsm where
+  pep : Nat
+  prot : Nat
+  decoy : Bool
+  m : Int
+
+/-- mirror of `big_table` in harness/src/ops/c13.rs -/
+def bigTable (seed : UInt64) (n : Nat) (mixk : Nat) (gd : Bool) : Array BigPsm := Id.run do
+  let confCut : UInt64 := if mixk == 0 then 4 else 7
+  let nullCut : UInt64 := if mixk == 0 then 7 else 9
+  let mut out : Array BigPsm := Array.mkEmpty (2 * n)
+  for i in [0:n] do
+    let iu := i.toUInt64
+    let c := hsh seed iu 1 % 10
+    let g := if i > 0 && (hsh seed iu 3 &&& 3) == 0 then i - 1 else i
+    let hasExtra := (hsh seed iu 4 &&& 7) == 0
+    let extraDrop : Int := 1 + ((hsh seed iu 5 % 40000).toNat : Int)
+    if !gd then
+      let decoy := c ≥ nullCut
+      let m := bell (hsh seed iu 2) + (if c < confCut then 196608 else 0)
+      -- protein-level entity: the group name, told apart by the decoy prefix
+      let e : BigPsm := { pep := i, prot := 2 * g + (if decoy then 1 else 0), decoy, m }
+      out := out.push e
+      if hasExtra then out := out.push { e with m := m - extraDrop }
+    else
+      let conf := c < confCut + 2
+      if hsh seed iu 7 % 10 != 0 then
+        let m := bell (hsh seed iu 2) + (if conf then 196608 else 0)
+        let e : BigPsm := { pep := 2 * i, prot := 2 * g, decoy := false, m }
+        out := out.push e
+        if hasExtra then out := out.push { e with m := m - extraDrop }
+      if hsh seed iu 6 % 10 < 6 then
+        out := out.push { pep := 2 * i + 1, prot := 2 * g + 1, decoy := true, m := bell (hsh seed iu 8) }
+  return out
+
+/-- the clauses on ONE answer: `ent` = entity of each PSM (dense ids below `nEnt`), `q` per PSM -/
+def bigClauses (nEnt : Nat) (ent : Array Nat) (decoy : Array Bool) (m : Array Int) (q : Array Float32)
+    (passing : Nat) (thr : Float32) : String := Id.run do
+  if q.size != ent.size then return "bad:length"
+  -- range
+  for x in q do
+    if !(x > 0 && x ≤ 1) then return "bad:range"
+  -- same entity => same q ; best score per entity
+  let mut eq : Array (Option Float32) := Array.replicate nEnt none
+  let mut best : Array Int := Array.replicate nEnt 0
+  let mut edec : Array Bool := Array.replicate nEnt false
+  for k in [0:ent.size] do
+    let e := ent[k]!
+    match eq[e]! with
+    | none =>
+      eq := eq.set! e (some q[k]!)
+      best := best.set! e m[k]!
+      edec := edec.set! e decoy[k]!
+    | some x =>
+      if x.toBits != q[k]!.toBits then return "bad:same_entity"
+      if m[k]! > best[e]! then best := best.set! e m[k]!
+  -- entities, best score descending
+  let mut es : Array (Int × Float32 × Bool) := Array.mkEmpty nEnt
+  for e in [0:nEnt] do
+    match eq[e]! with
+    | some x => es := es.push (best[e]!, x, edec[e]!)
+    | none => pure ()
+  let sorted := es.qsort (fun a b => a.1 > b.1)
+  -- antitone: every entity's q is at least the largest q among entities with a strictly higher best score
+  let mut maxHigher : Float32 := 0
+  let mut groupMax : Float32 := 0
+  let mut cur : Int := 0
+  let mut first := true
+  let mut cnt := 0
+  for (b, x, d) in sorted do
+    if first || b != cur then
+      if groupMax > maxHigher then maxHigher := groupMax
+      groupMax := 0
+      cur := b
+      first := false
+    if x < maxHigher then return "bad:antitone"
+    if x > groupMax then groupMax := x
+    if !d && x ≤ thr then cnt := cnt + 1
+  if cnt != passing then return "bad:count"
+  return "ok"
+
+/-- rounding allowance between two runs of the implementation on a table with `rows` entities: the two KDE
+    fits sum their samples in different orders (relative error ~ rows·2⁻⁵³), which flips the f32 rounding of a
+    PEP for a small fraction of the rows; each flip moves the running `decoy` sum by at most one ulp -/
+def bigTol (rows : Nat) : Nat := 2 + rows / 256
+
+def sameWithin (tol : Nat) (a b : Array Float32) : Bool := Id.run do
+  if a.size != b.size then return false
+  for k in [0:a.size] do
+    if ulpDistF32 a[k]! b[k]! > tol then return false
+  return true
+
+def handleBigPick (args impl : List String) : Option Reply := do
+  let (seed, n, mixk, gd, _pm) ← run (do
+    let s ← nat; let n ← nat; let m ← nat; let g ← bool; let p ← nat; pure (s, n, m, g, p)) args
+  let tab := bigTable seed.toUInt64 n mixk gd
+  let toks := impl.toArray
+  if impl == ["panic"] then pure { model := "invariant", agree := false, spec := "bad:panic" } else
+  let npsm := tab.size
+  let blk := 2 + 2 * npsm
+  if toks.size != 1 + 3 * blk || toks[0]!.toNat? != some npsm then
+    pure { model := "unexpected-reply-size", agree := false, spec := "bad:length" } else
+  let num (i : Nat) : Nat := (toks[i]!.toNat?).getD 0
+  let qOf (o : Nat) (lvl : Nat) : Array Float32 :=
+    (Array.range npsm).map fun k => f32OfBits (num (1 + o * blk + 2 + lvl * npsm + k))
+  let passOf (o lvl : Nat) : Nat := num (1 + o * blk + lvl)
+  let decoy := tab.map (·.decoy)
+  let ms := tab.map (·.m)
+  let entPep := tab.map (·.pep)
+  let entProt := tab.map (·.prot)
+  let nEnt := 2 * n + 2
+  let verdict : String := Id.run do
+    for lvl in [0:2] do
+      let ent := if lvl == 0 then entPep else entProt
+      let q0 := qOf 0 lvl
+      for o in [0:3] do
+        let q := qOf o lvl
+        let v := bigClauses nEnt ent decoy ms q (passOf o lvl) thrPep
+        if v != "ok" then return v
+        if o > 0 then
+          let tol := bigTol nEnt
+          let near := q0.any fun x => ulpDistF32 x thrPep ≤ tol
+          if !(sameWithin tol q0 q && (passOf 0 lvl == passOf o lvl || near)) then return "bad:order_dependent"
+    return "ok"
+  pure { model := "invariant", agree := verdict == "ok", spec := verdict }
+
+def handleBigPrec (args impl : List String) : Option Reply := do
+  let (seed, n) ← run (do let s ← nat; let n ← nat; pure (s, n)) args
+  let toks := impl.toArray
+  let blk := 1 + n
+  if toks.size != 1 + 3 * blk || toks[0]!.toNat? != some n then
+    pure { model := "unexpected-reply-size", agree := false, spec := "bad:length" } else
+  let num (i : Nat) : Nat := (toks[i]!.toNat?).getD 0
+  let s := seed.toUInt64
+  let decoy : Array Bool := (Array.range n).map fun i => decide (hsh s i.toUInt64 2 % 10 < 3)
+  let ms := (Array.range n).map fun i => bell (hsh s i.toUInt64 3) + (if hsh s i.toUInt64 2 % 10 < 3 then 0 else 40000)
+  let ent := Array.range n
+  let qOf (o : Nat) : Array Float32 := (Array.range n).map fun k => f32OfBits (num (1 + o * blk + 1 + k))
+  let verdict : String := Id.run do
+    let q0 := qOf 0
+    for o in [0:3] do
+      let q := qOf o
+      let v := bigClauses n ent decoy ms q (num (1 + o * blk)) thrPrec
+      if v != "ok" then return v
+      -- counts only: exact
+      if o > 0 && !(sameWithin 0 q0 q && num (1 + o * blk) == num 1) then return "bad:order_dependent"
+    return "ok"
+  pure { model := "invariant", agree := verdict == "ok", spec := verdict }
+
 def handle (op : String) (args impl : List String) : Option Reply :=
   match op with
+  | "bigpick" => handleBigPick args impl
+  | "bigprec" => handleBigPrec args impl
   | "pickpep" => do
     let ((gd, _, peps), feats) ← run (do let d ← pDb; let f ← pFeats; pure (d, f)) args
     let psms ← pepPsms gd peps (keyed feats)
